@@ -681,9 +681,40 @@ def check_c10(ix):
             for e in ix.kinds["body-enter"]:
                 if e["i"] != d["inv"] or e["s"] < d["s1"] or not _is_under(e["pos"], pos) or e.get("bkind") != "child":
                     continue
+                if e.get("status") in TERMINAL:
+                    continue  # a completed (ReplayChildren) context traversed again when its branch is resubmitted: not an orphan
                 begins = [b for b in ix.kinds["call-begin"] if b["i"] == e["i"] and b["pos"] == e["pos"] and b["s"] < e["s"]]
                 if begins and begins[-1]["s"] > d["s1"]:
                     out.append(V("C10", "orphan-function-ran", f"child body {e['pos']} entered after {pos} had returned", pos=e["pos"], seq=e["s"]))
+    # Under line tracing the simulator reports when the SDK enters its orphan test and its orphan marking. A function (or
+    # child body) entered although this thread's last orphan test for that operation began AFTER an enclosing context's
+    # descendants had been marked (= its completion record handed over) was not stopped. (A test that began before the
+    # marking is the inherent check-then-act window and is not judged.)
+    calls = ix.kinds["sdk-call"]
+    if calls:
+        marks = [c for c in calls if c["fn"] == "_mark_orphans"]
+        tests = [c for c in calls if c["fn"] == "raise_if_orphaned"]
+        entries = [e for e in ix.kinds["fn-enter"]] + [e for e in ix.kinds["body-enter"]
+                                                       if e.get("bkind") == "child" and e.get("status") not in TERMINAL]
+        for e in entries:
+            oid = ix.pos_id(e["pos"])
+            if oid is None:
+                continue
+            mine = [c for c in tests if c["arg"] == oid and c["t"] == e["t"] and c["i"] == e["i"] and c["s"] < e["s"]]
+            if not mine:
+                continue
+            s_chk = mine[-1]["s"]
+            anc, cur, n = set(), (ix.info.get(oid) or {}).get("parent"), 0
+            while cur and n < 64:
+                anc.add(cur)
+                cur = (ix.info.get(cur) or {}).get("parent")
+                n += 1
+            for m in marks:
+                if m["i"] == e["i"] and m["arg"] in anc and m["s"] < s_chk:
+                    out.append(V("C10", "orphan-test-passed-after-completion", f"user function of {e['pos']} entered at seq {e['s']} although "
+                                 f"its orphan test (seq {s_chk}) began after the completion of an enclosing context was handed over "
+                                 f"(seq {m['s']})", pos=e["pos"], seq=e["s"]))
+                    break
     return out
 
 
